@@ -220,6 +220,42 @@ theorem deqStep_ok {pr : Nat → Int} (q : ScqId) (ns : List Node) (pi : List Na
     (h : NAll (NodeOK pr) ns) : NAll (NodeOK pr) (deqStep pr q ns pi) :=
   deqStep_fix (fun n hn => Or.inr (h n hn))
 
+/-- predicates that survive `updateFirstOperationPriority` -/
+def RP (pr : Nat → Int) (P : Node → Prop) : Prop := ∀ ns n, P n → P (updPrio pr ns n)
+
+theorem nodeOK_rp (pr : Nat → Int) : RP pr (NodeOK pr) := fun ns n _ => updPrio_ok pr ns n
+
+theorem qin_rp (pr : Nat → Int) (B : Nat → Prop) : RP pr (QIn B) := by
+  intro ns n h o ho
+  rw [updPrio_qops] at ho
+  exact h o ho
+
+theorem NAll.refreshStep {P : Node → Prop} {pr : Nat → Int} (h : NAll P ns) (hR : RP pr P) (q : ScqId) (pi : List Nat) :
+    NAll P (BbRe.SchedTree.refreshStep pr q ns pi) := by
+  unfold BbRe.SchedTree.refreshStep
+  split
+  · exact h
+  · rename_i P0 hP0
+    exact NAll.setAt (fun n hn => Or.inr (h n hn)) (hR ns P0 (h P0 (node?_some hP0).1))
+
+theorem NAll.refreshUp {P : Node → Prop} {pr : Nat → Int} (h : NAll P ns) (hR : RP pr P) (q : ScqId) (p : List Nat) :
+    NAll P (BbRe.SchedTree.refreshUp pr ns q p) :=
+  NAll.foldl _ (fun _ _ hb => hb.refreshStep hR q _) _ _ h
+
+theorem NAll.incExecR {P : Node → Prop} {pr : Nat → Int} (h : NAll P ns) (hP : QP P) (hR : RP pr P) (lg : Bool)
+    (q : ScqId) (p : List Nat) (w : WKey) (now : Nat) : NAll P (BbRe.SchedTree.incExecR lg pr ns q p w now) := by
+  unfold BbRe.SchedTree.incExecR
+  split
+  · exact h.incExec hP q p w now
+  · exact (h.incExec hP q p w now).refreshUp hR q p
+
+theorem NAll.decExecR {P : Node → Prop} {pr : Nat → Int} (h : NAll P ns) (hP : QP P) (hR : RP pr P) (lg : Bool)
+    (q : ScqId) (p : List Nat) (w : WKey) (now : Nat) : NAll P (BbRe.SchedTree.decExecR lg pr ns q p w now) := by
+  unfold BbRe.SchedTree.decExecR
+  split
+  · exact h.decExec hP q p w now
+  · exact (h.decExec hP q p w now).refreshUp hR q p
+
 /-- after the `qops` of the invocation at `p` changed, every other node is as before -/
 theorem updNode_except {pr : Nat → Int} {ns : List Node} (h : NAll (NodeOK pr) ns) (q : ScqId) (p : List Nat)
     {f : Node → Node} (hf : KeepsKey f) : ∀ n ∈ updNode ns q p f, (n.scq = q ∧ n.path = p) ∨ NodeOK pr n := by
